@@ -82,6 +82,23 @@ def case(ctx, i, rec):
     if ts.num_sites == 0:
         rec.count("skipped_no_sites")
         return
+    if i % 3 == 0:
+        # sites without mutations and unreferenced individual / population rows: what the three
+        # filter_* flags (and only they) are allowed to remove
+        ts, nmono = zoo.add_monomorphic_sites(ts, rng, k=int(rng.integers(1, 5)))
+        t = ts.dump_tables()
+        try:
+            t.individuals.add_row(flags=0)
+            if t.populations.metadata_schema.schema is None:
+                t.populations.add_row()
+            else:
+                t.populations.add_row(metadata={"name": "unused", "description": "no node refers to it"})
+            ts = t.tree_sequence()
+            rec.count("inputs_with_unreferenced_rows")
+        except Exception:
+            rec.count("unreferenced_rows_not_added")
+        if nmono:
+            rec.count("inputs_with_monomorphic_sites")
     kw = {}
     user = None
     mode = i % 5
@@ -104,7 +121,7 @@ def case(ctx, i, rec):
     if sd is not None:
         kw["split_disjoint"] = sd
     for flag in ("filter_populations", "filter_individuals", "filter_sites"):
-        if rng.random() < 0.2:
+        if rng.random() < 0.3:
             kw[flag] = True
     rec.sig = zoo.ts_sig(ts, tuple(sorted((k, repr(v)) for k, v in kw.items())))
     if i < 3:
@@ -129,6 +146,21 @@ def case(ctx, i, rec):
     if not filt:
         if not np.all(np.isin(must_keep, pos_out)):
             v("site-lost", f"{int(np.sum(~np.isin(must_keep, pos_out)))} site(s) outside the deleted intervals disappeared")
+    # ---- the filter_* flags remove unreferenced rows of their own table and nothing else
+    if filt:
+        if out.num_sites and np.any(np.bincount(out.mutations_site, minlength=out.num_sites) == 0):
+            v("filter_sites-left-a-site-without-mutations", "filter_sites=True but a mutation-free site remains")
+        rec.count("filter_sites_runs")
+    for flag, n_in, n_out, refs in (
+            ("filter_individuals", ts.num_individuals, out.num_individuals, out.nodes_individual),
+            ("filter_populations", ts.num_populations, out.num_populations, out.nodes_population)):
+        if kw.get(flag, False):
+            used = np.unique(refs[refs >= 0])
+            if n_out != len(used):
+                v(f"{flag}-left-unreferenced-rows", f"{flag}=True: {n_out} rows remain, {len(used)} are referenced by nodes")
+            rec.count(f"{flag}_runs")
+        elif n_out != n_in:
+            v(f"{flag}-off-but-rows-removed", f"{flag} not requested: {n_in} rows in, {n_out} rows out")
     # ---- samples
     if not np.array_equal(out.nodes_time[out.samples()], ts.nodes_time[ts.samples()]) or out.num_samples != ts.num_samples:
         v("samples-changed", "sample count, order or times changed")
